@@ -152,6 +152,15 @@ class SizeEval:
             e2 = self.stmt(s.get('e'), dict(env), f) if s.get('e') is not None else dict(env)
             out = dict(env)
             out['@pos'] = max(e1['@pos'], e2['@pos'])
+            # locals that each arm sets to a bounded value (size of the fragment selected by the arm): upper bound = the larger one
+            for key_ in set(e1) | set(e2):
+                if isinstance(key_, str) and key_.startswith('@'):
+                    continue
+                a_, b_ = e1.get(key_), e2.get(key_)
+                if isinstance(a_, int) and isinstance(b_, int):
+                    out[key_] = max(a_, b_)
+                elif key_ in out and (a_ != out[key_] or b_ != out[key_]):
+                    out.pop(key_, None)
             return out
         if k in ('For', 'While', 'Do'):
             if k == 'For' and s.get('init') is not None:
@@ -254,6 +263,15 @@ class SizeEval:
                 env['@pos'] = env['@pos'] + v
             else:
                 raise AnalysisBroken('D-size: unsupported position update %s' % show(e))
+            return env
+        if k == 'Assign' and strip_all(e['l'])['k'] == 'Ref' and strip_all(e['l']).get('id') is not None:
+            env = self.expr_effects(e['r'], env, f)
+            v = self.ub(e['r'], env)
+            env = dict(env)
+            if v is not None:
+                env[strip_all(e['l'])['id']] = v
+            else:
+                env.pop(strip_all(e['l'])['id'], None)
             return env
         if k == 'Un' and e['op'] in ('++',) and show(e['e']) == self.pos:
             env = dict(env)
